@@ -90,6 +90,30 @@ pub const ERR_KINDS: [io::ErrorKind; 38] = [
     io::ErrorKind::Other,
 ];
 
+#[derive(Debug)]
+struct CustomErr(String);
+impl std::fmt::Display for CustomErr {
+    fn fmt(&self, f: &mut std::fmt::Formatter) -> std::fmt::Result {
+        write!(f, "custom<{}>", self.0)
+    }
+}
+impl std::error::Error for CustomErr {}
+
+/// The injected errors differ in how they are built, not only in their kind: a message, no payload at
+/// all, a custom error type, and an `io::Error` that wraps another `io::Error` of a different kind (what
+/// a decompressor does). Kind and text of the OUTER error are what the caller must get back.
+fn build_error(kind: io::ErrorKind, msg: String, style: usize) -> io::Error {
+    match style % 4 {
+        0 => io::Error::new(kind, msg),
+        1 => {
+            let inner_kind = if kind == io::ErrorKind::UnexpectedEof { io::ErrorKind::InvalidData } else { io::ErrorKind::UnexpectedEof };
+            io::Error::new(kind, io::Error::new(inner_kind, msg))
+        }
+        2 => io::Error::from(kind),
+        _ => io::Error::new(kind, CustomErr(msg)),
+    }
+}
+
 #[derive(Clone, Debug, PartialEq, Eq)]
 pub struct Fault {
     /// 1-based index among the read calls (resp. seek calls) of the source,
@@ -217,9 +241,9 @@ impl Read for Src {
             .iter()
             .find(|f| !f.on_seek && n_call >= f.at_call && n_call < f.at_call + f.repeat)
         {
-            let msg = format!("inj-read-{}", n_call);
-            log.injected.push((n_call, false, f.kind, msg.clone()));
-            return Err(io::Error::new(f.kind, msg));
+            let e = build_error(f.kind, format!("inj-read-{}", n_call), n_call);
+            log.injected.push((n_call, false, e.kind(), e.to_string()));
+            return Err(e);
         }
         let left = self.data.len() - log.pos;
         if left == 0 || buf.is_empty() {
@@ -256,9 +280,9 @@ impl Seek for Src {
             .iter()
             .find(|f| f.on_seek && n_call >= f.at_call && n_call < f.at_call + f.repeat)
         {
-            let msg = format!("inj-seek-{}", n_call);
-            log.injected.push((n_call, true, f.kind, msg.clone()));
-            return Err(io::Error::new(f.kind, msg));
+            let e = build_error(f.kind, format!("inj-seek-{}", n_call), n_call + 2);
+            log.injected.push((n_call, true, e.kind(), e.to_string()));
+            return Err(e);
         }
         let new = match to {
             SeekFrom::Start(p) => p as i64,
